@@ -16,6 +16,8 @@ THEOREMS = ['Ndt.info_consistent', 'Ndt.bestEstimate_err_nonneg', 'Ndt.wynnTable
 
 def run(ctx):
     import numdifftools as nd
+    from harness.translate import translator_obligations
+    translator_obligations(ctx, ['richerr.', 'dea3.'])
     lean_obligations(ctx, MODULE, THEOREMS)
     rng = ctx.rng
     # the Richardson error formula the theorems richErrGo_ge_diff / richErr_dominates_geometric / richErrMain_nonneg are about,
